@@ -74,6 +74,7 @@ T_SubEnd == Ev("SubEnd") /\ UNCHANGED started /\ SubEnd(E.h) /\ stream[E.h].lagg
 T_SubUnsub == Ev("SubUnsub") /\ UNCHANGED started /\ SubUnsubStart(E.h)
 T_SubUnsubDone == Ev("SubUnsubDone") /\ UNCHANGED started /\ SubDrained(E.h)
 T_SubDrop == Ev("SubDrop") /\ UNCHANGED started /\ SubDrop(E.h)
+T_SubDropEnded == Ev("SubDropEnded") /\ UNCHANGED started /\ SubDropEnded(E.h)
 
 T_Fault == /\ Ev("Fault") /\ UNCHANGED started
            /\ fault' = fault \cup {E.f}
@@ -109,7 +110,7 @@ T_Quiet == Ev("Quiet") /\ UNCHANGED <<vars, started>> /\ ~ClientCanStep
 (* the scenario is over: the connection has ended, so nothing may still be pending *)
 T_End == /\ Ev("End") /\ UNCHANGED <<vars, started>>
          /\ \A h \in SS : fe[h].st \in {"done", "abandoned"}
-         /\ \A h \in Subs : stream[h].rx \in {"none", "ended", "dropped"}
+         /\ \A h \in Subs : stream[h].rx \in {"none", "ended", "gone", "dropped"}
 
 (* ---- silent steps ---- *)
 (* The first poll of each spawned future happens in spawn order (FIFO run queue of the current_thread runtime), and in that   *)
@@ -135,7 +136,7 @@ Silent ==
      \/ StNoticeClosed \/ RtNoticeClosed \/ RtHandOver \/ StCloseFront \/ StHandOver \/ StEnd \/ WdRecv \/ ManagerDrop
 
 TNext == T_Reset \/ T_FeStart \/ T_WireOut \/ T_PeerSend \/ T_WireIn \/ T_FeDone \/ T_FeAbandon \/ T_SubNext \/ T_SubEnd \/ T_SubUnsub
-         \/ T_SubUnsubDone \/ T_SubDrop \/ T_Fault \/ T_SendFault \/ T_RecvFault \/ T_Sizes \/ T_Connected \/ T_OnDisconnect
+         \/ T_SubUnsubDone \/ T_SubDrop \/ T_SubDropEnded \/ T_Fault \/ T_SendFault \/ T_RecvFault \/ T_Sizes \/ T_Connected \/ T_OnDisconnect
          \/ T_Noop \/ T_Quiet \/ T_End \/ Silent
 TSpec == TInit /\ [][TNext]_tvars
 
